@@ -1052,7 +1052,7 @@ func init() {
 	register(&Rule{ID: "C07.R2", Prop: "C07", Floor: 10,
 		Doc: "partial machine operators in the integer code are guarded (typed AST, structured dominance): unary minus on a 64-bit word is preceded by an IntMin test; / and % by a zero test of the divisor and / on words by an IntMin test of the dividend; a shift by a count converted from a signed value by a test for < 0; math/big Div/Mod/Quo/Rem/QuoRem by a zero (Sign) test",
 		Run: func(c *Ctx, r *Rep) {
-			runGuardedOps(c, r, "C07", map[string]bool{"int.go": true, "bigint.go": true, "bool.go": true, "arithmetic.go": true}, []string{"py"})
+			runGuardedOps(c, r, "C07", map[string]bool{"int.go": true, "bigint.go": true, "bool.go": true, "arithmetic.go": true}, []string{"py", "stdlib/builtin"})
 		}})
 	register(&Rule{ID: "C07.R3", Prop: "C07", Floor: 4,
 		Doc: "overflow guards compare in the direction of the limit they are built on: a guard `x OP (IntMax ± y)` that selects the promoting branch uses > / >=, one built on IntMin uses < / <= (and the reverse when it selects the word branch)",
